@@ -990,11 +990,40 @@ var wReflectValueMutators = map[string]bool{
 	"SetUint": true, "SetZero": true, "Grow": true, "Clear": true,
 }
 
-// pure external packages: their functions neither retain nor modify their arguments (reviewed).
+// wPurePkgs: packages whose package-level functions and methods neither modify nor retain the
+// memory behind their arguments (reviewed), apart from the mutators listed above.
 var wPurePkgs = map[string]bool{
 	"strings": true, "strconv": true, "unicode/utf8": true, "unicode/utf16": true, "unicode": true, "math": true, "fmt": true,
-	"regexp": true, "regexp/syntax": true, "time": true, "net/url": true, "encoding/base64": true, "errors": true, "bytes": true,
-	"reflect": true, "sort": true, "math/rand": true, "sync": true, "encoding/json": true,
+	"regexp": true, "regexp/syntax": true, "time": true, "net/url": true, "encoding/base64": true, "errors": true,
+	"reflect": true, "sort": true, "math/rand": true,
+}
+
+// wPureFuncs: individually reviewed functions/methods of packages that also contain mutators.
+var wPureFuncs = map[string]string{
+	"sync.(RWMutex).Lock": "lock operations are decided by LOCK", "sync.(RWMutex).Unlock": "lock", "sync.(RWMutex).RLock": "lock", "sync.(RWMutex).RUnlock": "lock",
+	"sync.(Mutex).Lock": "lock", "sync.(Mutex).Unlock": "lock",
+	"encoding/json.Marshal": "reads its argument", "encoding/json.NewDecoder": "wraps a reader", "encoding/json.NewEncoder": "wraps a writer",
+	"encoding/json.(Encoder).Encode": "writes to its own buffer", "bytes.Map": "returns a copy", "bytes.(Buffer).String": "reads", "bytes.(Buffer).Len": "reads",
+	"bytes.(Buffer).Write": "the buffer is a local of the caller (checked as a store target when it is not)", "bytes.(Buffer).WriteString": "same", "bytes.(Buffer).WriteRune": "same", "bytes.(Buffer).WriteByte": "same",
+}
+
+func recvTypeName(f *ssa.Function) string {
+	t := f.Signature.Recv().Type()
+	if p, ok := t.(*types.Pointer); ok {
+		t = p.Elem()
+	}
+	if n, ok := t.(*types.Named); ok {
+		return n.Obj().Name()
+	}
+	return t.String()
+}
+
+func wReviewedPure(pp, key string, callee *ssa.Function) bool {
+	if wPurePkgs[pp] {
+		return true
+	}
+	_, ok := wPureFuncs[key]
+	return ok
 }
 
 type wSite struct {
@@ -1072,10 +1101,11 @@ func (e *wEngine) sites() []wSite {
 				}
 				key := pp + "." + name
 				if callee.Signature.Recv() != nil {
+					key = pp + ".(" + recvTypeName(callee) + ")." + name
 					if pp == "encoding/json" && name == "Decode" {
 						out = append(out, wSite{f, ins, "json.Decode", e.mask(cc.Args[1]), "decode destination", false})
+						continue
 					}
-					continue
 				}
 				if idxs, ok := wMutators[key]; ok {
 					for _, i := range idxs {
@@ -1085,16 +1115,15 @@ func (e *wEngine) sites() []wSite {
 					}
 					continue
 				}
-				if !wPurePkgs[pp] {
-					// an unreviewed library function given pointer-like data
-					for i, a := range cc.Args {
-						if pointerLike(a.Type()) {
-							if _, isStr := a.Type().Underlying().(*types.Basic); isStr {
-								continue
-							}
-							out = append(out, wSite{f, ins, "ext:" + key, e.mask(a), fmt.Sprintf("argument %d of unreviewed library function %s", i, key), false})
-						}
+				if wReviewedPure(pp, key, callee) {
+					continue
+				}
+				// an unreviewed library function given pointer-like data: it may modify or retain it
+				for i, a := range cc.Args {
+					if !pointerLike(a.Type()) {
+						continue
 					}
+					out = append(out, wSite{f, ins, "ext:" + key, e.mask(a), fmt.Sprintf("argument %d of the unreviewed library function %s (it may modify or retain it)", i, key), false})
 				}
 			}
 		}
